@@ -312,6 +312,8 @@ func (r *yieldRewriter) rewriteStmt(
 		// no rewriting, no combine
 		// e.g., go Yield(1), otherwise the yield call would be dropped silently
 		r.assert(r.mustNoYield(stmt), stmt, "yield not supported in %T", stmt)
+		// e.g., defer in the body of range stmt left native, it would run when the thunk returns
+		r.assert(!containsDefer(stmt), stmt, "defer not supported in %T", stmt)
 		children.push(stmt, kindTrival)
 		return children
 	}
